@@ -2,3 +2,4 @@
 pub mod syntax;
 pub mod bookgen;
 pub mod ledger;
+pub mod alias;
